@@ -313,6 +313,28 @@ def basis_sites(ctx):
             ok = len(searched) == n_ and all(equal(a_, b_, deep=False) for a_, b_ in zip(searched, want)) and bool(r[0].ret) == found
             ctx.ob('CENTERING', loc, 'setting %s, %s: the sites searched are the centring points as positions of the cell (fraction·vectors + origin), and the answer is %s' % (setting, tag, found), bool(ok),
                    'searched %s' % [[str(x_) for x_ in p_] for p_ in searched[:2]], node=cb, key='sites %s %s' % (setting, tag))
+    # several species: the species compared across the lattice sites is that of the atom found at each site, wherever those atoms are listed
+    class At2(PyStub):
+        atype = arr([2, 1, 1, 2, 1])
+
+    class Uc2(PyStub):
+        box, atoms = Bx(), At2()
+    for tag, hits, want in (('atoms of one species at both sites, another species listed first', [1, 2], True), ('different species at the two sites', [1, 3], False), ('the first-listed atom at the second site', [4, 0], False)):
+        k = []
+
+        def iop2(system, pos, **kw_):
+            k.append(1)
+            m = np.zeros(5, dtype=bool)
+            m[hits[min(len(k), len(hits)) - 1]] = True
+            return m
+        ev = SymEval(module_aliases(ctx.mod(C2P)))
+        ev.globals = {'index_of_pos': iop2}
+        try:
+            r = [q for q in ev.run_fn(cb, [Uc2(), 'i'], {}) if q.done == 'return']
+        except (Opaque, WouldRaise) as e:
+            raise AnalysisError('check_setting_basis (two species, %s): %s' % (tag, e))
+        ctx.ob('CENTERING', loc, 'body-centred setting, %s: the answer is %s (the species at a site is that of the atom found there)' % (tag, want), len(r) == 1 and bool(r[0].ret) == want,
+               'answered %s' % ([bool(q.ret) for q in r],), node=cb, key='species ' + tag[:30])
 
 
 def conversion(ctx):
